@@ -236,7 +236,7 @@ class RandomLineAccessFile(BaseRandomLineAccessFile[str]):
         """
 
         if self.file is None:
-            self.file = open(self.path_to, "r")
+            self.file = open(self.path_to, "r", newline="\n")
             self._opened_in_process_with_id = os.getpid()
 
         return self
